@@ -218,3 +218,10 @@ func init() {
 		return Val{T: tBool, Term: Select(e.comp(env.cur, "DEEPFRESH", "(Array Int Bool)"), e.refOfVal(args[0]))}, nil
 	}
 }
+
+func init() {
+	// sameslice(a, b): a and b are the same slice value (same backing array, offset, length and capacity)
+	specFuncs["sameslice"] = func(e *Exec, env *Env, args []Val) (Val, error) {
+		return Val{T: tBool, Term: Eq(args[0].Term, args[1].Term)}, nil
+	}
+}
